@@ -479,14 +479,14 @@ impl Vm {
     //@end
     // GetUpvalue / SetUpvalue: captured variable `operand` of the running closure, through its cell
     //@fn file=yarel/src/vm.rs path=Vm::get_upvalue_impl props=C06,C04
-    //@  subst "self .active_fiber() .current_frame() .unwrap() .closure .upvalues .borrow()[upvalue_index] .borrow() .get()" => "self.active_fiber().uvheap.get(self.enclosing_upvalue(upvalue_index)).get(&self.active_fiber().mem)"
+    //@  substx "self .active_fiber() .current_frame() .unwrap() .closure .upvalues .borrow()[$1] .borrow() .get()" => "self.active_fiber().uvheap.get(self.enclosing_upvalue($1)).get(&self.active_fiber().mem)"
     //@  requires 0 <= old(self).ip < old(self).code.len(), old(self).up_ok(old(self).operand())
     //@  ensures @get_upvalue_pushes_the_captured_variables_value final(self).fib.mem.m == old(self).fib.mem.m.insert(old(self).fib.sp, var_value(old(self).up_cell(old(self).operand()), old(self).fib.mem.m)) && final(self).fib.sp == old(self).fib.sp + 1
     //@  ensures final(self).ip == old(self).ip + 1, final(self).fib.uvheap == old(self).fib.uvheap, final(self).fib.open_list == old(self).fib.open_list
     //@end
     //@fn file=yarel/src/vm.rs path=Vm::set_upvalue_impl props=C06,C04
     //@  subst "self.active_fiber().current_frame().unwrap().closure" => "self.current_closure()"
-    //@  subst "closure.upvalues.borrow_mut()[upvalue_index] .borrow_mut() .set(stack_value);" => "{ let verif_cell = self.enclosing_upvalue(upvalue_index); let verif_f = self.active_fiber_mut(); verif_f.uvheap.get_mut(verif_cell).set(stack_value, &mut verif_f.mem); }"
+    //@  substx "closure.upvalues.borrow_mut()[$1] .borrow_mut() .set($2);" => "{ let verif_cell = self.enclosing_upvalue($1); let verif_f = self.active_fiber_mut(); verif_f.uvheap.get_mut(verif_cell).set($2, &mut verif_f.mem); }"
     //@  requires 0 <= old(self).ip < old(self).code.len(), old(self).up_ok(old(self).operand()), 0 < old(self).fib.sp < usize::MAX, old(self).stack_mapped()
     //@  ensures @set_upvalue_writes_the_captured_variable var_value(final(self).up_cell(old(self).operand()), final(self).fib.mem.m) == old(self).fib.mem.m[old(self).fib.sp - 1]
     //@  ensures @set_upvalue_touches_no_other_cell forall|c: int| c != old(self).enclosing[old(self).operand()].id() && old(self).fib.uvheap.cells.dom().contains(c) ==> final(self).fib.uvheap.cells[c] == old(self).fib.uvheap.cells[c]
